@@ -22,7 +22,7 @@ import (
 // first out-of-sequence, over-limit or undecodable item ends the channel without being delivered.
 func TestC16Client(t *testing.T) {
 	rapid.Check(t, func(t *rapid.T) {
-		ctx, cancel := context.WithTimeout(context.Background(), 60*time.Second)
+		ctx, cancel := context.WithTimeout(context.Background(), 600*time.Second)
 		defer cancel()
 		_, pool, _ := genStore(t, "s", 0, rapid.IntRange(2, 10).Draw(t, "pool"))
 		mn, hs := newNet(t, 2)
